@@ -7,4 +7,5 @@ From GoSse Require Import Base Run.
 Extraction Language OCaml.
 Extraction "model.ml" val run_fields holds_fields
   run_finite holds_finite holds_finite_slots run_valid holds_valid holds_valid_slots
+  run_message holds_message
   N.add N.mul N.div_eucl N.eqb Z.add Z.mul Z.opp Z.div_eucl Z.eqb Z.of_N Z.to_N.
